@@ -66,3 +66,52 @@ try:
     pass
 except:
     pass
+
+
+# overload groups WITHOUT an implementation (mypy leaves OverloadedFuncDef.impl = None):
+# in a Protocol, as abstract methods, under TYPE_CHECKING, and at module level (a non-blocking mypy error)
+import abc as _abc
+from typing import Protocol as _Protocol, TYPE_CHECKING as _TC, overload as _overload
+
+
+class _Reader(_Protocol):
+    @_overload
+    def read(self, n: int) -> bytes: ...
+    @_overload
+    def read(self, n: None = None) -> str: ...
+
+
+class _Abstract(_abc.ABC):
+    @_overload
+    @_abc.abstractmethod
+    def get(self, k: int) -> int: ...
+    @_overload
+    @_abc.abstractmethod
+    def get(self, k: str) -> str: ...
+
+
+if _TC:
+    @_overload
+    def _only_for_types(x: int) -> int: ...
+    @_overload
+    def _only_for_types(x: str) -> str: ...
+
+
+@_overload
+def _no_impl(x: int) -> int: ...
+@_overload
+def _no_impl(x: str) -> str: ...
+
+
+class _Props:
+    @property
+    def p(self) -> int:
+        return int(0)
+
+    @p.setter
+    def p(self, v: int) -> None:
+        self._v = int(v)
+
+    @p.deleter
+    def p(self) -> None:
+        del self._v
